@@ -67,7 +67,8 @@ def _scalar(rng):
     if r < 0.9:
         return {"t": "none"}
     if r < 0.97:
-        return {"t": "float", "v": rng.choice(["0.5", "1.0", "1e-05", "2.25", "-0.1", "100.0"])}
+        return {"t": "float", "v": rng.choice(["0.5", "1.0", "1e-05", "2.25", "-0.1", "100.0", "0.1234561", "0.1234562",
+                                                "1234567.0", "1e+16", "0.30000000000000004", "1234567.5"])}
     return {"t": "tuple", "v": [rng.randint(0, 3) for _ in range(rng.randint(0, 2))]}
 
 
